@@ -30,6 +30,9 @@ pub fn cells(tier: Tier) -> Vec<CellPlan> {
     add(cells::split_lossy("C02"), 2, 3, 3, 4, 2.0);
     add(cells::wrap("C02", 4), 1, 2, 3, 4, 2.0);
     add(cells::same_frame3("C02"), 1, 1, 1, 2, 1.0);
+    let mut r = cells::reinsert("C02");
+    r.env = Env::full();
+    add(r, 2, 3, 3, 4, 2.0);
     v
 }
 
